@@ -182,6 +182,15 @@ func (wkr *worker) startContainer(ctr arvados.Container) {
 		}
 		wkr.mtx.Lock()
 		defer wkr.mtx.Unlock()
+		if wkr.starting[ctr.UUID] != rr {
+			// A probe already moved our runner from
+			// wkr.starting to wkr.running (and it might
+			// even have ended and been closed since)
+			// while we were in rr.Start(). Putting it
+			// (back) in wkr.running now would make the
+			// next probe close it a second time.
+			return
+		}
 		now := time.Now()
 		wkr.updated = now
 		wkr.busy = now
